@@ -4,6 +4,7 @@ import (
 	"database/sql"
 	"fmt"
 	"reflect"
+	"sort"
 	"strconv"
 	"strings"
 	"time"
@@ -231,6 +232,84 @@ type field struct {
 	def       string
 	defSQL    string // DEFAULT clause of the column
 	defStored string // canonical content of a cell the INSERT left to the database
+	// placement: the embedded struct the field is declared in (nil = top level) and its reflect index path
+	grp  *group
+	path []int
+	// blocked: a permission-less duplicate of this field's column sits on a SHORTER path and is
+	// declared BEFORE the embedded struct holding this field (see dup)
+	blocked bool
+	dup     *dup // the duplicate field sharing this field's column, if any
+}
+
+// group is one embedded struct of the model type: embedded by tag (`embedded`, optionally with
+// embeddedPrefix) or anonymously (Go embedding), by value or by pointer, possibly nested.
+type group struct {
+	name   string
+	anon   bool
+	ptr    bool
+	prefix string
+	tag    string
+	parent *group
+	items  []*item
+	typ    reflect.Type // the struct type (without the pointer)
+}
+
+func (g *group) depth() int {
+	if g == nil {
+		return 0
+	}
+	return 1 + g.parent.depth()
+}
+
+func (g *group) root() *group {
+	for g.parent != nil {
+		g = g.parent
+	}
+	return g
+}
+
+// cumPrefix: what gorm puts in front of the column names of the group's fields.
+func (g *group) cumPrefix() string {
+	if g == nil {
+		return ""
+	}
+	return g.parent.cumPrefix() + g.prefix
+}
+
+// item: one declared struct field - a column field, a duplicate, or an embedded struct.
+type item struct {
+	f *field
+	d *dup
+	g *group
+}
+
+// dup is a SECOND Go field (same Go name) mapped to the column of field main, on a path of a
+// different length (two fields on paths of equal length sharing a column are not generated):
+//
+//	ghost-outer     on the shorter path, every permission removed (`<-:false;->:false`): it must never
+//	                be the source of a write, the column keeps being served by main (declared inside an
+//	                embedded struct); first = it is declared before that embedded struct
+//	ghost-inner     on the longer path (inside an embedded struct), every permission removed
+//	shadowed-inner  on the longer path with a random permission tag, main (outer, with some permission)
+//	                owns the column (Go's shadowing of a promoted field); always left zero
+type dup struct {
+	id    int
+	name  string
+	k     kind
+	tag   string
+	role  string
+	first bool
+	main  *field
+	grp   *group
+	path  []int
+}
+
+func (d *dup) decl() string {
+	s := d.name + " " + d.k.name
+	if d.tag != "" {
+		s += " `gorm:\"" + d.tag + "\"`"
+	}
+	return s + " /* " + d.role + " duplicate of column " + d.main.col + " */"
 }
 
 // dbDefault: the default is evaluated by the database (schema.FieldsWithDefaultDBValue): gorm leaves
@@ -308,6 +387,11 @@ type model struct {
 	pks    []*field // all key fields
 	rows   []seedRow
 	maxKey int64
+	// declaration layout: top-level items in declaration order, all embedded structs, duplicates
+	top      []*item
+	groups   []*group
+	dups     []*dup
+	zeroGrid bool // composite key whose parts may legally be zero: some seeded rows have one zero key part
 }
 
 type nameCol struct{ name, col string }
@@ -455,22 +539,41 @@ func genModel(r *core.Rand, table string) *model {
 	}
 	copy(m.fields[npk:], sh)
 	m.pks = m.fields[:npk]
-	var sf []reflect.StructField
 	for i, f := range m.fields {
 		f.idx = i
-		st := reflect.StructField{Name: f.name, Type: f.k.typ}
-		if f.tag != "" {
-			st.Tag = reflect.StructTag(`gorm:"` + f.tag + `"`)
-		}
-		sf = append(sf, st)
 	}
-	m.typ = reflect.StructOf(sf)
+	m.layout(r, npk)
+	m.typ = reflect.StructOf(m.build(m.top, nil))
 	// rows: 3..6 distinct keys out of 1..9, every cell a unique sentinel
 	nr := r.Range(3, 6)
 	ks := r.Perm(9)[:nr]
+	if npk == 2 && r.Bool() {
+		// composite key whose parts may legally be zero (k1 = 0, k2 = ""): a 3 x 3 grid over
+		// {0,1,2} x {"","a","b"} without the all-zero key; 2..3 rows with a complete key and 1..3
+		// rows with exactly one zero part
+		m.zeroGrid = true
+		full := []int{4, 5, 7, 8}
+		part := []int{1, 2, 3, 6}
+		ks = nil
+		nf := r.Range(2, 3)
+		for _, i := range r.Perm(4)[:nf] {
+			ks = append(ks, full[i])
+		}
+		for _, i := range r.Perm(4)[:r.Range(1, 3)] {
+			ks = append(ks, part[i])
+		}
+		sh := r.Perm(len(ks))
+		ks2 := make([]int, len(ks))
+		for i, j := range sh {
+			ks2[i] = ks[j]
+		}
+		ks = ks2
+	}
 	for ri, kn := range ks {
 		row := seedRow{cells: make([]lval, len(m.fields))}
 		switch {
+		case m.zeroGrid:
+			row.key = lval{v: []lval{{v: int64(kn / 3)}, {v: []string{"", "a", "b"}[kn%3]}}}
 		case npk == 2:
 			// 3 x 3 key grid: every key part is shared by several rows
 			row.key = lval{v: []lval{{v: int64(kn/3 + 1)}, {v: string(rune('a' + kn%3))}}}
@@ -527,12 +630,290 @@ func fresh(class string, n int) lval {
 	}
 }
 
-func (m *model) decls() []string {
+// ---- declaration layout: embedded structs and duplicate columns -------------------------
+
+var ghostTags = []string{"<-:false;->:false", "->:false;<-:false"}
+
+// layout decides where every non-key field is declared: at the top level or inside one of 1..2
+// embedded structs (each possibly holding one nested embedded struct), and adds 0..2 duplicate
+// fields (see dup). Half of the models stay flat.
+func (m *model) layout(r *core.Rand, npk int) {
+	for _, f := range m.fields[:npk] {
+		m.top = append(m.top, &item{f: f})
+	}
+	rest := m.fields[npk:]
+	if !r.Chance(1, 2) {
+		for _, f := range rest {
+			m.top = append(m.top, &item{f: f})
+		}
+		return
+	}
+	newGroup := func(name string, parent *group) *group {
+		g := &group{name: name, parent: parent, anon: r.Chance(2, 5), ptr: r.Chance(1, 4)}
+		if r.Bool() {
+			g.prefix = strings.ToLower(name) + "_"
+		}
+		switch {
+		case !g.anon && g.prefix == "":
+			g.tag = "embedded"
+		case !g.anon:
+			g.tag = "embedded;embeddedPrefix:" + g.prefix
+		case g.prefix == "":
+			g.tag = ""
+		case r.Bool():
+			g.tag = "embeddedPrefix:" + g.prefix
+		default:
+			g.tag = "embedded;embeddedPrefix:" + g.prefix
+		}
+		return g
+	}
+	var cand []*group
+	ng := core.Pick(r, []int{1, 1, 2})
+	for i := 0; i < ng; i++ {
+		g := newGroup([]string{"Meta", "Info"}[i], nil)
+		cand = append(cand, g)
+		if r.Chance(1, 4) {
+			cand = append(cand, newGroup([]string{"Sub", "Ext"}[i], g))
+		}
+	}
+	placed := map[*group]bool{}
+	var place func(g *group)
+	place = func(g *group) { // declares the embedded struct (at the current end of its parent)
+		if placed[g] {
+			return
+		}
+		placed[g] = true
+		m.groups = append(m.groups, g)
+		if g.parent == nil {
+			m.top = append(m.top, &item{g: g})
+			return
+		}
+		place(g.parent)
+		g.parent.items = append(g.parent.items, &item{g: g})
+	}
+	for _, f := range rest {
+		// top level : each embedded struct = 3 : 2
+		n := r.Intn(3 + 2*len(cand))
+		if n < 3 {
+			m.top = append(m.top, &item{f: f})
+			continue
+		}
+		g := cand[(n-3)/2]
+		place(g)
+		f.grp = g
+		g.items = append(g.items, &item{f: f})
+	}
+	for _, f := range rest {
+		if f.grp != nil {
+			f.col = f.grp.cumPrefix() + f.col
+		}
+	}
+	// duplicate columns
+	insert := func(items []*item, at int, it *item) []*item {
+		items = append(items, nil)
+		copy(items[at+1:], items[at:])
+		items[at] = it
+		return items
+	}
+	natural := func(f *field) string {
+		for _, nc := range namePool {
+			if nc.name == f.name {
+				return nc.col
+			}
+		}
+		return ""
+	}
+	for _, i := range r.Perm(len(rest)) {
+		f := rest[i]
+		if len(m.dups) >= 2 {
+			break
+		}
+		if f.ignored || f.autoUpd != "" || f.autoCre != "" || natural(f) == "" || !r.Chance(1, 2) {
+			continue
+		}
+		d := &dup{id: len(m.dups), name: f.name, k: f.k, main: f}
+		var tags []string
+		if f.grp != nil {
+			// the duplicate sits at the top level: a shorter path than main's
+			d.role = "ghost-outer"
+			d.first = r.Chance(1, 3)
+			tags = append(tags, core.Pick(r, ghostTags))
+			if f.col != natural(f) || r.Chance(1, 3) {
+				tags = append(tags, "column:"+f.col)
+			}
+			at := 0
+			for j, it := range m.top {
+				if it.g == f.grp.root() {
+					at = j
+				}
+			}
+			if d.first {
+				m.top = insert(m.top, r.Range(npk, at), &item{d: d})
+				f.blocked = true
+			} else {
+				m.top = insert(m.top, r.Range(at+1, len(m.top)), &item{d: d})
+			}
+		} else {
+			// the duplicate sits inside an embedded struct without column prefix: a longer path
+			var gs []*group
+			for _, g := range m.groups {
+				if g.cumPrefix() == "" {
+					gs = append(gs, g)
+				}
+			}
+			if len(gs) == 0 {
+				continue
+			}
+			d.grp = core.Pick(r, gs)
+			d.role = "ghost-inner"
+			if !f.free && r.Bool() {
+				d.role = "shadowed-inner"
+			}
+			if d.role == "ghost-inner" {
+				tags = append(tags, core.Pick(r, ghostTags))
+			} else {
+				p := pickPerm(r)
+				for p.ignored {
+					p = pickPerm(r)
+				}
+				if p.tag != "" {
+					tags = append(tags, p.tag)
+				}
+			}
+			if f.col != natural(f) || r.Chance(1, 3) {
+				tags = append(tags, "column:"+f.col)
+			}
+			d.grp.items = insert(d.grp.items, r.Range(0, len(d.grp.items)), &item{d: d})
+		}
+		if len(tags) == 2 && r.Bool() {
+			tags[0], tags[1] = tags[1], tags[0]
+		}
+		d.tag = strings.Join(tags, ";")
+		f.dup = d
+		m.dups = append(m.dups, d)
+	}
+}
+
+// build makes the struct fields of one declaration level and records the reflect index paths.
+func (m *model) build(items []*item, path []int) []reflect.StructField {
+	var sf []reflect.StructField
+	gtag := func(t string) reflect.StructTag {
+		if t == "" {
+			return ""
+		}
+		return reflect.StructTag(`gorm:"` + t + `"`)
+	}
+	for i, it := range items {
+		p := append(append([]int(nil), path...), i)
+		switch {
+		case it.f != nil:
+			it.f.path = p
+			sf = append(sf, reflect.StructField{Name: it.f.name, Type: it.f.k.typ, Tag: gtag(it.f.tag)})
+		case it.d != nil:
+			it.d.path = p
+			sf = append(sf, reflect.StructField{Name: it.d.name, Type: it.d.k.typ, Tag: gtag(it.d.tag)})
+		default:
+			g := it.g
+			g.typ = reflect.StructOf(m.build(g.items, p))
+			t := g.typ
+			if g.ptr {
+				t = reflect.PtrTo(t)
+			}
+			sf = append(sf, reflect.StructField{Name: g.name, Type: t, Tag: gtag(g.tag), Anonymous: g.anon})
+		}
+	}
+	return sf
+}
+
+// setPath sets the field at an index path below root (a struct), allocating embedded pointers.
+func setPath(root reflect.Value, path []int, v reflect.Value) {
+	cur := root
+	for _, ix := range path {
+		if cur.Kind() == reflect.Ptr {
+			if cur.IsNil() {
+				cur.Set(reflect.New(cur.Type().Elem()))
+			}
+			cur = cur.Elem()
+		}
+		cur = cur.Field(ix)
+	}
+	cur.Set(v)
+}
+
+func (m *model) declItems(items []*item, indent string) []string {
 	var out []string
-	for _, f := range m.fields {
-		out = append(out, f.decl())
+	for _, it := range items {
+		switch {
+		case it.f != nil:
+			out = append(out, indent+it.f.decl())
+		case it.d != nil:
+			out = append(out, indent+it.d.decl())
+		default:
+			g := it.g
+			head := g.name + " "
+			if g.anon {
+				head = "/* embedded anonymously, type name */ " + g.name + " = "
+			}
+			if g.ptr {
+				head += "*"
+			}
+			out = append(out, indent+head+"struct {")
+			out = append(out, m.declItems(g.items, indent+"    ")...)
+			tail := "}"
+			if g.tag != "" {
+				tail += " `gorm:\"" + g.tag + "\"`"
+			}
+			out = append(out, indent+tail)
+		}
 	}
 	return out
+}
+
+func (m *model) decls() []string { return m.declItems(m.top, "") }
+
+// layoutFeatures: the embedding forms the model uses.
+func (m *model) layoutFeatures() []string {
+	if len(m.groups) == 0 {
+		return []string{"flat"}
+	}
+	seen := map[string]bool{}
+	for _, g := range m.groups {
+		if g.anon {
+			seen["anonymous"] = true
+		} else {
+			seen["by-tag"] = true
+		}
+		if g.ptr {
+			seen["pointer"] = true
+		} else {
+			seen["value"] = true
+		}
+		if g.prefix != "" {
+			seen["prefix"] = true
+		}
+		if g.parent != nil {
+			seen["nested"] = true
+		}
+	}
+	var out []string
+	for n := range seen {
+		out = append(out, n)
+	}
+	sort.Strings(out)
+	return out
+}
+
+// layoutName: the embedding forms of the model (part of the case shape).
+func (m *model) layoutName() string { return strings.Join(m.layoutFeatures(), "+") }
+
+// fullKey: every part of the key is non-zero.
+func (m *model) fullKey(k lval) bool {
+	for i, part := range m.keyParts(k) {
+		if isGoZero(m.pks[i].k, part) {
+			return false
+		}
+	}
+	return true
 }
 
 func (m *model) createSQL() string {
@@ -603,23 +984,43 @@ func (m *model) recKey(rc *rec) (lval, bool) {
 	return lval{v: parts}, true
 }
 
-// newStruct returns a *T with the given fields set.
-func (m *model) newStruct(vals map[int]lval) reflect.Value {
+// newStruct returns a *T with the given fields (and duplicate fields, by dup id) set.
+func (m *model) newStruct(vals map[int]lval, dvals map[int]lval) reflect.Value {
 	p := reflect.New(m.typ)
 	for i, l := range vals {
-		p.Elem().Field(i).Set(goValue(m.fields[i].k, l))
+		setPath(p.Elem(), m.fields[i].path, goValue(m.fields[i].k, l))
+	}
+	for i, l := range dvals {
+		setPath(p.Elem(), m.dups[i].path, goValue(m.dups[i].k, l))
 	}
 	return p
 }
 
-func (m *model) structLit(vals map[int]lval) string {
+func (m *model) litItems(items []*item, vals map[int]lval, dvals map[int]lval) string {
 	var parts []string
-	for _, f := range m.fields {
-		l, ok := vals[f.idx]
-		if !ok || isGoZero(f.k, l) {
-			continue
+	for _, it := range items {
+		switch {
+		case it.f != nil:
+			if l, ok := vals[it.f.idx]; ok && !isGoZero(it.f.k, l) {
+				parts = append(parts, it.f.name+": "+goLit(it.f.k, l))
+			}
+		case it.d != nil:
+			if l, ok := dvals[it.d.id]; ok && !isGoZero(it.d.k, l) {
+				parts = append(parts, it.d.name+": "+goLit(it.d.k, l))
+			}
+		default:
+			if in := m.litItems(it.g.items, vals, dvals); in != "" {
+				amp := ""
+				if it.g.ptr {
+					amp = "&"
+				}
+				parts = append(parts, it.g.name+": "+amp+"{"+in+"}")
+			}
 		}
-		parts = append(parts, f.name+": "+goLit(f.k, l))
 	}
-	return "T{" + strings.Join(parts, ", ") + "}"
+	return strings.Join(parts, ", ")
+}
+
+func (m *model) structLit(vals map[int]lval, dvals map[int]lval) string {
+	return "T{" + m.litItems(m.top, vals, dvals) + "}"
 }
